@@ -244,6 +244,40 @@ func cmdCheck(args []string) int {
 		}
 	}
 
+	// ---- callers of library functions marked "callers-checked <prop>" are all checked
+	for name, s := range e.specs.funcs {
+		if !hasTag(s.CallersChecked, *prop) {
+			continue
+		}
+		for _, fn := range e.funcsByName {
+			root := fn
+			for root.Parent() != nil {
+				root = root.Parent()
+			}
+			if root.Pkg == nil || !inModule(root.Pkg.Pkg) || fn.Synthetic != "" || len(fn.Blocks) == 0 || e.deadFuncs()[root] || seenFn[fn] {
+				continue
+			}
+			if fn.Parent() != nil && onlyInlined(fn) {
+				continue
+			}
+			calls := false
+			for _, b := range fn.Blocks {
+				for _, in := range b.Instrs {
+					if c, ok := in.(ssa.CallInstruction); ok {
+						if sc := c.Common().StaticCallee(); sc != nil && sc.String() == name {
+							calls = true
+						}
+					}
+				}
+			}
+			if calls {
+				seenFn[fn] = true
+				fns = append(fns, fn)
+			}
+		}
+	}
+	sort.Slice(fns, func(i, j int) bool { return fns[i].String() < fns[j].String() })
+
 	// ---- translate (worklist: callees whose contracts were used are verified too)
 	e.curProp = *prop
 	var results []*FnCtx
